@@ -45,6 +45,16 @@ def check_clock(start, end, pre, post, acc, reuse=False):
     want = cal.clock(start, end, pre, post)
     acc.count('C12:events_observed', len(got))
     if reuse:
+        # the flags are public attributes: switched on an engine that has already been run, the next pass follows them
+        for p2, q2 in ((not pre, post), (pre, not post)):
+            eng.pre_market, eng.post_market = p2, q2
+            again = [(to_py(e.ts), e.event_type) for e in eng]
+            if again != cal.clock(start, end, p2, q2):
+                raise Violation('C12', 'flags-changed-after-first-pass', 'an engine built with pre/post = %s/%s and run once, then set to '
+                                '%s/%s, emits %d events; the clock for those flags has %d' % (pre, post, p2, q2, len(again),
+                                                                                             len(cal.clock(start, end, p2, q2))), case)
+        eng.pre_market, eng.post_market = pre, post
+        acc.count('C12:passes_after_the_flags_were_switched')
         import copy
         for how in (copy.deepcopy, copy.copy):
             twin = [(to_py(e.ts), e.event_type) for e in how(DailyBusinessDaySimulationEngine(pts(start), pts(end), pre_market=pre,
@@ -443,6 +453,10 @@ def shard_c13(spec, acc):
     mine = days[spec['lo']:spec['hi']:spec.get('stride', 1)]
     rng = random.Random(spec['rng'])
     tods = [dt.time(0, 0), dt.time(14, 30)]
+    # somebody else in the process has already run clocks with the other flag combinations
+    from qstrader.simulation.daily_bday import DailyBusinessDaySimulationEngine as _Eng
+    for p_, q_ in ((True, False), (False, True), (True, True)):
+        list(_Eng(pts(cal.at(dt.date(2020, 1, 6), dt.time(0, 0))), pts(cal.at(dt.date(2020, 1, 8), cal.POST)), pre_market=p_, post_market=q_))
     # "no scheduled rebalance is silently skipped", observed on running sessions: any time of day for the start
     from qsmon import sesswl
     for j in range(spec.get('sessions', 3)):
